@@ -16,6 +16,7 @@ ANCHORS = ["src/pylife/stress/rainflow/general.py", "src/pylife/stress/rainflow/
            "src/pylife/stress/rainflow/fourpoint.py", "src/pylife/stress/rainflow/fkm.py",
            "src/pylife/stress/rainflow/extension.pyx", "src/pylife/stress/rainflow/recorders.py"]
 SHARDS = {"quick": 1, "thorough": 14}
+SOAK = {"thorough": ["tests/stress/rainflow"]}      # contract soak under the repository's own tests
 WATCHDOG = {"quick": 900, "thorough": 3000}
 SANITIZE = {"quick": ["asan", "bounds"], "thorough": ["asan", "bounds"]}
 SANITIZE_SHARDS = {"quick": 1, "thorough": 1}
